@@ -58,6 +58,22 @@ def _dict_stores(ctx: Ctx, f: Func):
             for k_, v_ in zip(d_.keys, d_.values):
                 if isinstance(k_, ast.Constant) and isinstance(k_.value, str):
                     out.setdefault(k_.value, (v_, ctx.X.at(g, v_), g))
+        # the fields handed to the constructor as keywords: `ConstraintInfo(bound_lower=bound_lower, ...)` with
+        # locals that are None unless their family applies - the store is the non-None assignment of the local
+        keys = {f"{fam}_{side}" for fam in FAMILIES for side in ("lower", "upper")}
+        for c_ in calls_in(g):
+            kws = {k.arg: k.value for k in c_.keywords if k.arg in keys}
+            if len(kws) < 2:
+                continue
+            for k_, v_ in kws.items():
+                if isinstance(v_, ast.Name):
+                    defs = [n for n in nodes_in(g, (ast.Assign, ast.AnnAssign)) if n.value is not None
+                            and any(isinstance(t_, ast.Name) and t_.id == v_.id for t_ in (n.targets if isinstance(n, ast.Assign) else [n.target]))
+                            and not (isinstance(n.value, ast.Constant) and n.value.value is None)]
+                    if len(defs) == 1:
+                        out.setdefault(k_, (defs[0], ctx.X.at(g, defs[0].value), g))
+                else:
+                    out.setdefault(k_, (v_, ctx.X.at(g, v_), g))
     return out
 
 
@@ -327,21 +343,38 @@ def c13_4(ctx: Ctx) -> RuleResult:
         "linear": ("variables", "linear_constraints_diffs_from_optimizer"),
         "nonlinear": ("nonlinear_constraints", "nonlinear_constraint_diffs_from_optimizer"),
     }
+    from ..terms import _project
+
+    # every store `d["<family>_<side>"] = value` (directly or through a tuple target), as (key, node, value term)
+    kstores: dict[str, list] = {}
+    for n in nodes_in(m, ast.Assign):
+        for tg in n.targets:
+            if isinstance(tg, ast.Subscript) and isinstance(tg.slice, ast.Constant) and isinstance(tg.slice.value, str):
+                kstores.setdefault(tg.slice.value, []).append((n, X.value_at(m, n.value)))
+            elif isinstance(tg, ast.Tuple):
+                vt = X.at(m, n.value)
+                for i, e in enumerate(tg.elts):
+                    if isinstance(e, ast.Subscript) and isinstance(e.slice, ast.Constant) and isinstance(e.slice.value, str):
+                        kstores.setdefault(e.slice.value, []).append((n, _project(vt, (i,))))
     for fam, (tr, meth) in table.items():
-        found = None
-        for n in nodes_in(m, ast.Assign):
-            if len(n.targets) == 1 and isinstance(n.targets[0], ast.Tuple):
-                keys = [e.slice.value for e in n.targets[0].elts if isinstance(e, ast.Subscript) and isinstance(e.slice, ast.Constant)]
-                if keys == [f"{fam}_lower", f"{fam}_upper"]:
-                    found = n
-        if found is None:
+        sides = []
+        for i, side in enumerate(("lower", "upper")):
+            sts = kstores.get(f"{fam}_{side}", [])
+            if not sts:
+                sides.append(None)
+                continue
+            node_, t = sts[0]
+            # component i of transforms.<tr>.<meth>(self.<fam>_lower, self.<fam>_upper)
+            okc = t[0] == "item" and t[2] == i and t[1][0] == "call" and t[1][1][0] == "attr" and t[1][1][2] == meth and ends_with_attrs(t[1][1][1], tr)
+            args_ok = okc and [a[2] if a[0] == "attr" else None for a in t[1][2]] == [f"{fam}_lower", f"{fam}_upper"]
+            sides.append((node_, t, okc and args_ok and len(sts) == 1))
+        if None in sides:
             res.add(m, m.node, f"{fam} differences are back-transformed into (lower, upper) in that order", False, "no store of the pair", construct=f"transform: {fam}")
             continue
-        t = X.at(m, found.value)
-        ok = t[0] == "call" and t[1][0] == "attr" and t[1][2] == meth and ends_with_attrs(t[1][1], tr)
-        args_ok = ok and [a[2] if a[0] == "attr" else None for a in t[2]] == [f"{fam}_lower", f"{fam}_upper"]
-        res.add(m, found, f"{fam} differences use transforms.{tr}.{meth}(lower, upper)", ok and args_ok,
-                "" if ok and args_ok else f"`{show(t, 100)}`: wrong transform, or lower/upper arguments swapped", construct=f"transform: {fam}")
+        ok = all(sd[2] for sd in sides)
+        bad = next((sd for sd in sides if not sd[2]), None)
+        res.add(m, sides[0][0], f"{fam} differences use transforms.{tr}.{meth}(lower, upper), component 0 stored as lower and 1 as upper", ok,
+                "" if ok else f"`{show(bad[1], 100)}`: wrong transform, or lower/upper swapped", construct=f"transform: {fam}")
     rets = [r for r in nodes_in(m, ast.Return) if r.value is not None]
     ok = any(isinstance(r.value, ast.Call) and ast.unparse(r.value.func) in (c.name, "cls") for r in rets)
     res.add(m, m.node, "a new ConstraintInfo is constructed from the differences, so __post_init__ recomputes the violations in the user domain", ok,
